@@ -56,8 +56,9 @@ impl TryFrom<&Value> for Coord {
 
 impl Hash for Coord {
     fn hash<H: std::hash::Hasher>(&self, state: &mut H) {
-        self.lat.to_bits().hash(state);
-        self.long.to_bits().hash(state);
+        // +0.0 and -0.0 are equal, so they have to hash alike
+        (self.lat + 0.0).to_bits().hash(state);
+        (self.long + 0.0).to_bits().hash(state);
     }
 }
 
